@@ -22,6 +22,7 @@ package main
 import (
 	"encoding/hex"
 	"fmt"
+	"math"
 	"reflect"
 	"sort"
 	"strconv"
@@ -178,8 +179,8 @@ func (e *tdEnv) structDef(info *amino.TypeInfo) string {
 // tdOf: descriptor of a (dereferenced) type under field options fopts.
 // top=true when defining an env entry for a non-struct type (avoid `$self`).
 func (e *tdEnv) tdOf(info *amino.TypeInfo, fopts amino.FieldOptions, top bool) string {
-	if fopts.Unsafe || fopts.UseGoogleTypes {
-		panic(errUncovered("unsafe/google field option"))
+	if fopts.UseGoogleTypes {
+		panic(errUncovered("google field option"))
 	}
 	rt := info.Type
 	if info.IsAminoMarshaler {
@@ -271,6 +272,9 @@ func (e *tdEnv) tdOf(info *amino.TypeInfo, fopts amino.FieldOptions, top bool) s
 		return "b"
 	case reflect.String:
 		return "s"
+	case reflect.Float32, reflect.Float64:
+		e.hasUnmodelled = true
+		return "g" + strconv.Itoa(rt.Bits())
 	}
 	panic(errUncovered(fmt.Sprintf("unsupported kind %v", rt.Kind())))
 }
@@ -385,6 +389,8 @@ func (c *mvCtx) mvOf(v reflect.Value, info *amino.TypeInfo) string {
 		return "i" + strconv.FormatInt(v.Int(), 10)
 	case reflect.Uint, reflect.Uint8, reflect.Uint16, reflect.Uint32, reflect.Uint64:
 		return "u" + strconv.FormatUint(v.Uint(), 10)
+	case reflect.Float32, reflect.Float64:
+		return "g" + strconv.FormatUint(math.Float64bits(v.Float()), 16)
 	case reflect.Bool:
 		if v.Bool() {
 			return "t"
